@@ -53,7 +53,7 @@ OLD_W = 1024      # the former WRAP_TOLERANCE (defect D8): documentation + secon
 TABLE_RULES = ["C09.TableEqual", "C09.OrdConsistent", "C09.WrapAddSub", "C09.NoPanic"]
 OP_RULE = {"offset": "C09.TableEqual", "sub": "C09.OrdConsistent", "cmp": "C09.OrdConsistent",
            "add": "C09.WrapAddSub", "subk": "C09.WrapAddSub", "tolerance": "C09.ToleranceIsW"}
-REQUIRED = ["C09.TableEqual", "C09.OrdConsistent", "C09.WrapAddSub", "C09.OffsetAgreesImpl", "C09.DistAgrees",
+REQUIRED = ["C09.ShiftEqual", "C09.SameLength", "C09.TableEqual", "C09.OrdConsistent", "C09.WrapAddSub", "C09.OffsetAgreesImpl", "C09.DistAgrees",
             "C09.GhostAgrees", "C09.ToleranceIsW"]
 
 
@@ -177,11 +177,98 @@ def _line_to_case(line, ctx):
 
 
 # ------------------------------------------------------------------------------------------ hook
+def _shift_scripts(tier, seed):
+    """Scripts for the metamorphic part and the ISN / connection-id bases to run each of them with."""
+    import random
+    from . import scen
+    rng = random.Random(seed * 7 + 3)
+    out = []
+    n = 6 if tier == "quick" else 40
+    for i in range(n):
+        sc = scen.random_transfer(seed, 500 + i, fam="shift", lossy=(i % 2 == 0), sizes=(2000, 120000))
+        out.append(sc)
+    # long transfers whose flight spans more than 1024 segments across the wrap (the D8 shape)
+    big = 3_500_000 if tier == "quick" else 8_000_000
+    out.append(scen.transfer("shift/big", seed, n_ab=big, chunk_w=65536, chunk_r=65536,
+                             opts_a=dict(link_mtu=576, tx_init=1 << 20, tx_max=1 << 20), opts_b=dict(link_mtu=576),
+                             net={"latency_us": 50000, "spacing_us": 20}, info={"class": "loss-free"},
+                             wait_us=600 * scen.SEC))
+    bases_quick = [(100, 1000, 2000), (65530, 62000, 64000), (500, 60000, 65535)]
+    bases_thorough = bases_quick + [(0, 0, 0), (65535, 65535, 65535), (1, 64512, 1023), (32768, 32767, 32768),
+                                    (rng.randrange(65536), rng.randrange(65536), rng.randrange(65536))]
+    return out, (bases_quick if tier == "quick" else bases_thorough)
+
+def _tx_lines(trace_path):
+    out = []
+    with open(trace_path) as f:
+        for line in f:
+            if line.startswith('{"alts"') or '"ev":"tx"' in line[:400]:
+                rec = json.loads(line)
+                if rec.get("ev") == "tx":
+                    out.append(rec)
+    return out
+
 def metamorphic_part(r, tier, seed):
-    """HOOK: the metamorphic trace-shift part of C09 (C09.ShiftEqual: the packet trace of a run started near the
-    wrap equals the trace of the same run started at a small number with every sequence/ack number shifted).
-    Filled in by the owner of the scenario harness; append to r.violations / r.cov / r.traces here."""
-    pass
+    """C09.ShiftEqual: the packet trace of a run started near the wrap equals the trace of the same run started at
+    a small number with every sequence/ack number (and connection id) shifted.  The same script is executed with
+    several (connection id, ISN_A, ISN_B) bases; the i-th datagrams of two runs are paired and ShiftTrace.tla
+    (TLC) compares them after subtracting each run's own bases."""
+    from . import scen
+    core.build_harness()
+    scripts, bases = _shift_scripts(tier, seed)
+    d = os.path.join(SCRATCH, f"shift_{tier}_{seed}")
+    os.makedirs(d, exist_ok=True)
+    mute = ["poll", "recv", "disp", "xmit", "seg", "route", "tab", "rand", "syn_arrived", "syn_matched", "conn_new"]
+    runs = {}
+    jobs = []
+    for si, sc in enumerate(scripts):
+        for bi, (cid, ia, ib) in enumerate(bases):
+            s2 = json.loads(json.dumps(sc))
+            s2["cfg"]["mute"] = mute
+            s2["cfg"]["socks"][0]["rand"] = [cid, ia]
+            s2["cfg"]["socks"][1]["rand"] = [(cid + 7777) % 65536, ib]
+            jobs.append((si, bi, s2))
+    from concurrent.futures import ThreadPoolExecutor
+    def one(job):
+        si, bi, s2 = job
+        tp = os.path.join(d, f"s{si}_b{bi}.ndjson")
+        core.run_scripts([s2], tp, timeout=1200)
+        return si, bi, _tx_lines(tp)
+    with ThreadPoolExecutor(max_workers=min(core.NCPU, 12)) as ex:
+        for si, bi, tx in ex.map(one, jobs):
+            runs[(si, bi)] = tx
+    a_addr = None
+    joint = os.path.join(d, "pairs.ndjson")
+    pairs = 0
+    with open(joint, "w") as f:
+        for si, sc in enumerate(scripts):
+            name = sc["cfg"]["name"]
+            a_addr = sc["cfg"]["socks"][0]["addr"]
+            base0 = bases[0]
+            for bi in range(1, len(bases)):
+                A, B = runs[(si, 0)], runs[(si, bi)]
+                def side(rec, base):
+                    cid, ia, ib = base
+                    return {"hdr": rec["hdr"], "t": rec.get("due", 0), "len": rec["len"], "runs": rec["runs"],
+                            "fate": rec["fate"], "dir": "ab" if rec["from"] == a_addr else "ba",
+                            "cid_base": cid, "isn_a": ia, "isn_b": ib}
+                for x, y in zip(A, B):
+                    f.write(json.dumps({"ev": "pair", "script": f"{name}#{bi}", "a": side(x, base0), "b": side(y, bases[bi])}) + "\n")
+                    pairs += 1
+                f.write(json.dumps({"ev": "count", "script": f"{name}#{bi}", "na": len(A), "nb": len(B)}) + "\n")
+    v = core.tlc_trace(joint, spec="ShiftTrace", tag=f"c09shift_{tier}_{seed}", timeout=1500, xmx="6g")
+    r.traces += len(jobs)
+    r.trace_lines += v.get("lines", 0)
+    r.scripts += len(jobs)
+    for k, c in v.get("cov", {}).items():
+        r.cov[k] = r.cov.get(k, 0) + c
+    for x in v.get("viol", []):
+        name = x.get("ep", "")
+        si = next((i for i, sc in enumerate(scripts) if name.startswith(sc["cfg"]["name"] + "#")), 0)
+        bi = int(name.rsplit("#", 1)[1]) if "#" in name else 1
+        s2 = json.loads(json.dumps(scripts[si]))
+        r.violations.append((x, {"kind": "shift", "script": s2, "bases": [list(bases[0]), list(bases[bi])]}, joint))
+    r.notes["metamorphic"] = {"scripts": len(scripts), "bases": [list(b) for b in bases], "datagram_pairs_compared": pairs}
 
 
 # ------------------------------------------------------------------------------------------ the check
